@@ -1,7 +1,7 @@
 #!/bin/bash
 # usage: tools/seed2_verify.sh ID 'command (run from the worktree) that builds+runs the demonstration; exit 0 = pass'
-# second-round seeds: scratch worktree /tmp/seed2-ID, stored as /verif/seeded/IDb
-ID=$1; CMD=$2; D=/tmp/seed2-$ID; cd $D || exit 3
+# later-round seeds: ROUND=2 (default): scratch worktree /tmp/seed2-ID, stored as /verif/seeded/IDb; ROUND=3: /tmp/seed3-ID -> /verif/seeded/IDc
+ID=$1; CMD=$2; ROUND=${ROUND:-2}; SUF=b; [ "$ROUND" = 3 ] && SUF=c; D=/tmp/seed$ROUND-$ID; cd $D || exit 3
 [ -f SEED/patch.diff ] || { echo "no patch"; exit 3; }
 git checkout -q -- src
 cmake -G Ninja -B _build -DCMAKE_BUILD_TYPE=Release . >/dev/null 2>&1; cmake --build _build -j8 >/dev/null 2>&1 || { echo "ORIGINAL BUILD FAILED"; exit 3; }
@@ -10,10 +10,10 @@ git apply SEED/patch.diff || { echo "PATCH DOES NOT APPLY"; exit 3; }
 cmake --build _build -j8 >/dev/null 2>&1 || { echo "CHANGED BUILD FAILED"; exit 3; }
 PASSED=$(./_build/randomx-tests 2>&1 | grep -c "PASSED")
 timeout 1800 bash -c "$CMD" > SEED/demo.changed.out 2>&1; R1=$?
-echo "seed2 $ID: demo(original) exit=$R0, tests PASSED lines=$PASSED (expect 106), demo(changed) exit=$R1"
+echo "seed$ROUND $ID: demo(original) exit=$R0, tests PASSED lines=$PASSED (expect 106), demo(changed) exit=$R1"
 if [ $R0 -eq 0 ] && [ $PASSED -eq 106 ] && [ $R1 -ne 0 ]; then
-  mkdir -p /verif/seeded/${ID}b; cp SEED/patch.diff SEED/README.md /verif/seeded/${ID}b/
-  for f in SEED/*.cpp SEED/*.sh SEED/*.c SEED/*.h SEED/*.hpp SEED/*.S; do [ -f $f ] && cp $f /verif/seeded/${ID}b/; done
+  mkdir -p /verif/seeded/${ID}${SUF}; cp SEED/patch.diff SEED/README.md /verif/seeded/${ID}${SUF}/
+  for f in SEED/*.cpp SEED/*.sh SEED/*.c SEED/*.h SEED/*.hpp SEED/*.S; do [ -f $f ] && cp $f /verif/seeded/${ID}${SUF}/; done
   echo CONFIRMED; exit 0
 fi
 echo NOT-CONFIRMED; tail -3 SEED/demo.orig.out SEED/demo.changed.out; exit 1
